@@ -193,7 +193,7 @@ fn thorough_workloads(rng: &mut crate::rng::Rng) -> Vec<Workload> {
 
 #[derive(Clone, Debug)]
 struct CallRec {
-    /// model token without phases (`n`, `a7`, `c`, `r`, `d`, `m`, `g`, `l`) or `-` for calls the
+    /// model token without phases (`n`, `a7`, `c`, `r`, `d`, `w`, `m`, `g`, `l`, `x`) or `-` for calls the
     /// model does not have (delete_term)
     tok: String,
     what: String,
@@ -230,6 +230,11 @@ struct Child {
     writer_errored: bool,
     /// a rollback of the current writer returned Err (it lost its lock guard)
     rollback_failed: bool,
+    /// an `end_merge` of the current writer swapped the registers and then failed to save meta.json:
+    /// `Index::searchable_segment_ids` (read from meta.json) names segments the writer no longer has
+    registers_ahead: bool,
+    /// the current writer generation has already drawn an opstamp (add / delete / commit)
+    gen_stamped: bool,
     calls: Vec<CallRec>,
     violations: Vec<Value>,
     counts: BTreeMap<String, u64>,
@@ -298,6 +303,19 @@ impl Child {
         let r = &w[i];
         r.kind == OpKind::SyncDir && r.thread == "segment_updater"
             && w[..i].iter().rev().find(|x| x.thread == "segment_updater").map(|x| x.kind == OpKind::AtomicWrite && x.path == "meta.json" && x.ok).unwrap_or(false)
+    }
+
+    /// did the merge that started at log index `from` fail in `end_merge`'s `save_metas` (the updater's
+    /// directory sync / atomic write of meta.json), i.e. after `segment_manager.end_merge` swapped
+    /// the registers?
+    fn end_merge_save_failed(&self, from: usize) -> bool {
+        let log = self.vdir.log();
+        let w = &log[from.min(log.len())..];
+        let Some(i) = w.iter().position(|r| r.faulted) else { return false };
+        let r = &w[i];
+        r.thread == "segment_updater"
+            && (r.kind == OpKind::SyncDir || r.path == "meta.json")
+            && !w[..i].iter().any(|x| x.thread == "segment_updater" && x.kind == OpKind::AtomicWrite && x.path == "meta.json" && x.ok)
     }
 
     /// a lock file left behind by a failed flush / delete blocks every later acquisition; the
@@ -369,6 +387,8 @@ impl Child {
                 }
                 self.writer = Some(w);
                 self.rollback_failed = false;
+                self.registers_ahead = false;
+                self.gen_stamped = false;
                 self.pending.clear();
                 self.acked_since_err.clear();
                 self.writer_errored = false;
@@ -411,6 +431,8 @@ impl Child {
             match r {
                 Ok(Ok(_)) => {
                     self.record("r".into(), "rollback(recovery)", "ok".into(), from);
+                    self.registers_ahead = false;
+                    self.gen_stamped = false;
                     self.pending.clear();
                     self.acked_since_err.clear();
                     self.writer_errored = false;
@@ -482,6 +504,7 @@ impl Child {
                     d.add_u64(self.idf, id);
                     d.add_text(self.body, format!("document number {id} lorem ipsum"));
                     let from = self.vdir.log_len();
+                    self.gen_stamped = true;
                     let w = self.writer.as_mut().unwrap();
                     let r = catch_unwind(AssertUnwindSafe(|| w.add_document(d)));
                     match r {
@@ -503,6 +526,17 @@ impl Child {
                 }
             }
             Step::Del(id) => {
+                if self.writer.is_some() && !self.gen_stamped {
+                    // The first operation of a writer that was just opened or rolled back draws the
+                    // opstamp of the last commit itself, so a merge (target = committed opstamp)
+                    // applies and publishes this delete without any commit, and leaves a .del file
+                    // that makes a retried merge fail. That is a defect of the unchanged tree with
+                    // no I/O fault involved, recorded under C02 (C02:reopen-first-delete-published-
+                    // by-merge); the fault sweep does not issue such a delete.
+                    self.count("delete:skipped-first-operation-of-writer-generation");
+                    return;
+                }
+                self.gen_stamped = true;
                 let Some(w) = self.writer.as_mut() else { return };
                 let from = self.vdir.log_len();
                 let term = Term::from_field_u64(self.idf, *id);
@@ -514,6 +548,9 @@ impl Child {
                 self.record("-".into(), "delete", "ok".into(), from);
             }
             Step::Commit => {
+                if self.writer.is_some() {
+                    self.gen_stamped = true;
+                }
                 let Some(w) = self.writer.as_mut() else { return };
                 let from = self.vdir.log_len();
                 let r = catch_unwind(AssertUnwindSafe(|| w.commit()));
@@ -521,6 +558,7 @@ impl Child {
                 match r {
                     Ok(Ok(_)) => {
                         self.record("c".into(), "commit", "ok".into(), from);
+                        self.registers_ahead = false;
                         // (1) complete: the storage now holds exactly the expected documents
                         self.clean_stale_locks("after commit");
                         match content_of_storage(self.ram.clone(), self.idf) {
@@ -597,6 +635,8 @@ impl Child {
                 match r {
                     Ok(Ok(_)) => {
                         self.record("r".into(), "rollback", "ok".into(), from);
+                        self.registers_ahead = false;
+                        self.gen_stamped = false;
                         self.pending.clear();
                         self.acked_since_err.clear();
                         self.writer_errored = false;
@@ -629,6 +669,12 @@ impl Child {
                 if self.writer.is_none() {
                     return;
                 }
+                if self.registers_ahead {
+                    // the only public source of segment ids is stale; a merge of those ids is refused
+                    // with InvalidArgument by design — the harness has nothing valid to ask for
+                    self.count("merge:skipped-registers-ahead-of-meta");
+                    return;
+                }
                 let from0 = self.vdir.log_len();
                 let ids = match catch_unwind(AssertUnwindSafe(|| self.index.searchable_segment_ids())) {
                     Ok(Ok(ids)) => {
@@ -648,8 +694,16 @@ impl Child {
                 let w = self.writer.as_mut().unwrap();
                 let r = catch_unwind(AssertUnwindSafe(|| w.merge(&ids).wait()));
                 match r {
-                    Ok(Ok(_)) => self.record("m".into(), "merge", "ok".into(), from),
-                    Ok(Err(e)) => self.record("m".into(), "merge", short_err(&e), from), // confined to the merge
+                    Ok(Ok(_)) => {
+                        self.record("m".into(), "merge", "ok".into(), from);
+                        self.registers_ahead = false;
+                    }
+                    Ok(Err(e)) => {
+                        self.record("m".into(), "merge", short_err(&e), from); // confined to the merge
+                        if self.end_merge_save_failed(from) {
+                            self.registers_ahead = true;
+                        }
+                    }
                     Err(_) => {
                         self.record("m".into(), "merge", "panic".into(), from);
                         self.violation("oracle", "C11:panic-in-merge", "merge(..).wait() panicked".into());
@@ -731,10 +785,10 @@ impl Child {
                 let r = catch_unwind(AssertUnwindSafe(move || w.wait_merging_threads()));
                 self.pending.clear();
                 match r {
-                    Ok(Ok(())) => self.record("d".into(), "wait_merging_threads", "ok".into(), from),
-                    Ok(Err(e)) => self.record("d".into(), "wait_merging_threads", short_err(&e), from),
+                    Ok(Ok(())) => self.record("w".into(), "wait_merging_threads", "ok".into(), from),
+                    Ok(Err(e)) => self.record("w".into(), "wait_merging_threads", short_err(&e), from),
                     Err(_) => {
-                        self.record("d".into(), "wait_merging_threads", "panic".into(), from);
+                        self.record("w".into(), "wait_merging_threads", "panic".into(), from);
                         self.violation("oracle", "C11:panic-in-wait", "wait_merging_threads panicked".into());
                     }
                 }
@@ -752,6 +806,13 @@ impl Child {
             }
         }
         let starts: Vec<usize> = self.calls.iter().map(|c| c.from).collect();
+        // log index at which each file was created (first open_write)
+        let mut created_at: BTreeMap<&str, usize> = BTreeMap::new();
+        for (i, r) in log.iter().enumerate() {
+            if r.kind == OpKind::OpenWrite {
+                created_at.entry(r.path.as_str()).or_insert(i);
+            }
+        }
         for (i, r) in log.iter().enumerate() {
             if !r.faulted {
                 continue;
@@ -785,7 +846,17 @@ impl Child {
             } else if th.starts_with("merge_thread") || (th == "docstore-compressor-thread" && created_by.starts_with("merge_thread")) {
                 if c0 == 'm' { ("mt", false) } else { ("bg", true) }
             } else if th.starts_with("thrd-tantivy-index") || th == "docstore-compressor-thread" {
-                ("wk", false)
+                // A segment file that was created under an earlier writer generation (before the last
+                // rollback / drop) belongs to discarded work: its worker was detached from the
+                // pipeline, and the doc-store compressor thread of a dropped SegmentWriter finishes
+                // its file on its own, possibly during a later call. Nobody can (or needs to) report
+                // a failure there.
+                let creation_gen = created_at.get(r.path.as_str()).and_then(|ix| starts.iter().rposition(|s| *s <= *ix)).map(|cj| self.calls[cj].writer_gen);
+                if creation_gen.is_some() && creation_gen != Some(self.calls[ci].writer_gen) {
+                    ("bg", true)
+                } else {
+                    ("wk", false)
+                }
             } else if th == "segment_updater" {
                 match c0 {
                     'c' => {
@@ -854,6 +925,10 @@ impl Child {
             if has("xx") && c.tok != "-" {
                 self.violation("model", "C11:unclassified-fault", format!("a faulted operation during `{}` could not be attributed to a phase", c.what));
             }
+            if has("wk") && c0 != 'c' {
+                // the worker runs on while the script is in another call (add, delete, merge, gc, reload)
+                worker_failed_gen = Some(c.writer_gen);
+            }
             match c0 {
                 'n' if ok && (has("lo") || has("lf") || has("cr")) => self.violation("oracle", "C11:error-swallowed-in-new-writer", format!("Index::writer returned Ok although {:?} failed", c.tags)),
                 'c' => {
@@ -866,18 +941,14 @@ impl Child {
                     }
                     worker_failed_gen = None;
                 }
-                'a' | '-' => {
-                    if has("wk") {
-                        worker_failed_gen = Some(c.writer_gen);
-                    }
-                }
+                'a' | '-' => {}
                 'r' => {
                     if ok && has("cr") {
                         self.violation("oracle", "C11:error-swallowed-in-rollback", "rollback returned Ok although reading the index failed".into());
                     }
                     if ok { worker_failed_gen = None; }
                 }
-                'd' => {
+                'd' | 'w' => {
                     worker_failed_gen = None;
                 }
                 'm' if ok && (has("mt") || has("ep") || has("es") || has("e2")) => self.violation("oracle", "C11:error-swallowed-in-merge", format!("merge returned Ok although {:?} failed", c.tags)),
@@ -889,27 +960,29 @@ impl Child {
     }
 
     fn compare_with_model(&mut self, ctx: &mut Ctx) {
-        if !self.wl.model_applies() || self.calls.iter().any(|c| c.background) {
+        // with the segment-cut hook a worker hands over several segments per transaction; when one of
+        // them fails and the writer is used on without rollback (policy B) the earlier segments of the
+        // failed transaction are published by the next commit — the one-segment model cannot follow
+        if !self.wl.model_applies() || (self.wl.cut > 0 && self.policy_b) || self.calls.iter().any(|c| c.background) {
             self.count("model:skipped");
             return;
         }
-        // a worker that fails while the script is in a call the model does not have (delete_term)
-        // is the next modelled call's worker failure
-        let mut carried: BTreeSet<&'static str> = BTreeSet::new();
+        // A worker that fails while the script is in a call that has no worker phase in the model
+        // (delete_term, merge, gc, reload, the harness' own reads) is, for the model, the failure of
+        // the worker that indexes the documents of the preceding add_document of that writer; if
+        // there is none, of the next add / commit.
         for i in 0..self.calls.len() {
-            if self.calls[i].tok == "-" {
-                if self.calls[i].tags.contains("wk") {
-                    carried.insert("wk");
-                }
-            } else if !carried.is_empty() {
-                let c0 = self.calls[i].tok.chars().next().unwrap_or('-');
-                if c0 == 'a' || c0 == 'c' {
-                    let add: Vec<&'static str> = carried.iter().cloned().collect();
-                    for t in add {
-                        self.calls[i].tags.insert(t);
-                    }
-                }
-                carried.clear();
+            let c0 = self.calls[i].tok.chars().next().unwrap_or('-');
+            if matches!(c0, 'a' | 'c') || !self.calls[i].tags.contains("wk") {
+                continue;
+            }
+            let gen = self.calls[i].writer_gen;
+            let back = (0..i).rev().take_while(|j| self.calls[*j].writer_gen == gen && !matches!(self.calls[*j].tok.chars().next(), Some('c') | Some('r') | Some('n')))
+                .find(|j| self.calls[*j].tok.starts_with('a'));
+            let target = back.or_else(|| (i + 1..self.calls.len()).take_while(|j| self.calls[*j].writer_gen == gen).find(|j| matches!(self.calls[*j].tok.chars().next(), Some('a') | Some('c'))));
+            self.calls[i].tags.remove("wk");
+            if let Some(t) = target {
+                self.calls[t].tags.insert("wk");
             }
         }
         let toks: Vec<String> = self.calls.iter().filter(|c| c.tok != "-").map(|c| {
@@ -924,6 +997,7 @@ impl Child {
             return;
         }
         let mut mismatch: Option<String> = None;
+        let mut mismatch_call = String::new();
         let mut worker_fault_open = false;
         for (i, c) in real.iter().enumerate() {
             let m = model_res.get(i).cloned().unwrap_or("?");
@@ -932,9 +1006,10 @@ impl Child {
             if c.tags.contains("wk") && c0 == 'a' {
                 worker_fault_open = true;
             }
-            if c0 == 'c' || c0 == 'r' || c0 == 'd' || c0 == 'n' {
+            if c0 == 'c' || c0 == 'r' || c0 == 'd' || c0 == 'w' || c0 == 'n' {
                 if m != r && mismatch.is_none() {
                     mismatch = Some(format!("call {i} `{}` ({:?}): implementation {r}, model {m}", c.what, c.tags));
+                    mismatch_call = c.what.split('(').next().unwrap_or("call").to_string();
                 }
                 worker_fault_open = false;
                 continue;
@@ -947,17 +1022,127 @@ impl Child {
                 }
                 if mismatch.is_none() {
                     mismatch = Some(format!("call {i} `{}` ({:?}): implementation {r}, model {m}", c.what, c.tags));
+                    mismatch_call = c.what.split('(').next().unwrap_or("call").to_string();
                 }
             }
         }
         self.count("model:compared");
         if let Some(m) = mismatch {
-            self.violation("model", "C11:call-results-differ-from-model", format!("{m}; script {}; model {}", toks.join(","), resp));
+            self.violation("model", &format!("C11:call-results-differ-from-model:{mismatch_call}"), format!("{m}; script {}; model {}", toks.join(","), resp));
         }
     }
 }
 
+static PROBE_ADDS: std::sync::atomic::AtomicUsize = std::sync::atomic::AtomicUsize::new(0);
+
+fn probe_filter_store(k: OpKind, p: &str) -> bool { k == OpKind::OpenWrite && p.ends_with(".store") }
+fn probe_filter_fast(k: OpKind, p: &str) -> bool { k == OpKind::OpenWrite && p.ends_with(".fast") }
+fn probe_filter_fieldnorm(k: OpKind, p: &str) -> bool { k == OpKind::OpenWrite && p.ends_with(".fieldnorm") }
+
+/// Saturated pipeline: the only indexing worker is parked (by the VDir hook) in the storage
+/// operation that is going to fail, until the producer has filled the bounded document channel
+/// and is blocked inside `add_document`; then the operation fails and the worker dies. The death
+/// of the worker must disconnect the pipeline: the blocked `add_document` returns `Err` (and so
+/// does every later one); the writer can be dropped and a new writer continues.
+fn saturate_probe(ctx: &mut Ctx, case: &Value) {
+    use std::sync::atomic::Ordering;
+    let out_path = PathBuf::from(case["out"].as_str().expect("out"));
+    let cap: usize = ctx.model.ask("C11 cap").parse().expect("C11 cap");
+    let variant = case["variant"].as_u64().unwrap_or(0);
+    let (schema, idf, body) = schema();
+    let vdir = VDir::new();
+    let index = Index::create(vdir.clone(), schema, IndexSettings::default()).expect("index creation (not faulted)");
+    let mut violations: Vec<Value> = vec![];
+    let mut viol = |key: &str, what: String| violations.push(json!({"kind": "oracle", "key": key, "what": what}));
+    let opts = IndexWriterOptions::builder().num_worker_threads(1).memory_budget_per_thread(15_000_000).num_merge_threads(1).build();
+    let mut writer: IndexWriter = index.writer_with_options(opts).expect("writer (not faulted)");
+    writer.set_merge_policy(Box::new(NoMergePolicy));
+    let target = cap + 2; // 1 batch held by the worker + `cap` queued + 1 blocked in send
+    vdir.set_hook(Some(Arc::new(move |r: &OpRec| {
+        if r.faulted && r.thread.starts_with("thrd-tantivy-index") {
+            let t0 = Instant::now();
+            while PROBE_ADDS.load(Ordering::SeqCst) < target && t0.elapsed() < Duration::from_secs(20) {
+                std::thread::sleep(Duration::from_millis(2));
+            }
+            // leave the producer the time to really block inside add_document
+            std::thread::sleep(Duration::from_millis(300));
+        }
+    })));
+    vdir.with_state(|s| {
+        s.fault_filter = Some(match variant % 3 { 0 => probe_filter_store, 1 => probe_filter_fast, _ => probe_filter_fieldnorm });
+        s.faultable_seen = 0;
+        s.fail_at = Some((0, false));
+    });
+    let mut first_err: Option<usize> = None;
+    let mut panicked = false;
+    for i in 0..cap + 50 {
+        PROBE_ADDS.fetch_add(1, Ordering::SeqCst);
+        let mut d = TantivyDocument::default();
+        d.add_u64(idf, i as u64);
+        let r = catch_unwind(AssertUnwindSafe(|| writer.add_document(d)));
+        match r {
+            Ok(Ok(_)) => {}
+            Ok(Err(_)) => {
+                first_err = Some(i);
+                break;
+            }
+            Err(_) => {
+                panicked = true;
+                break;
+            }
+        }
+    }
+    let injected = vdir.with_state(|s| s.faults_injected);
+    if panicked {
+        viol("C11:panic-in-add", "add_document panicked while the pipeline was saturated".into());
+    }
+    let commit_res = if first_err.is_none() && !panicked { Some(catch_unwind(AssertUnwindSafe(|| writer.commit())).map(|r| r.is_ok()).unwrap_or(false)) } else { None };
+    if injected == 0 {
+        viol("C11:saturation-probe-inert", "the probe did not inject its fault (no worker open_write of the chosen component)".into());
+    } else if first_err.is_none() && commit_res == Some(true) {
+        viol("C11:worker-error-swallowed", format!("the only worker died of an I/O error while the pipeline was full; all {} add_document calls and the commit returned Ok", cap + 50));
+    }
+    // a blocked add woken by the worker's death is the (cap+2)-th; an earlier Err would mean the pipeline was never full
+    let saturated = first_err.map(|i| i + 1 >= target).unwrap_or(false);
+    vdir.set_hook(None);
+    vdir.with_state(|s| { s.fail_at = None; s.fault_filter = None; });
+    let r = catch_unwind(AssertUnwindSafe(move || drop(writer)));
+    if r.is_err() {
+        viol("C11:panic-in-drop", "dropping the writer whose worker died panicked".into());
+    }
+    let rec = catch_unwind(AssertUnwindSafe(|| -> Result<(), String> {
+        let mut w: IndexWriter = index.writer_with_num_threads(1, 15_000_000).map_err(|e| format!("Index::writer: {e:?}"))?;
+        let mut d = TantivyDocument::default();
+        d.add_u64(idf, 1_000_000);
+        d.add_text(body, "after recovery");
+        w.add_document(d).map_err(|e| format!("add: {e:?}"))?;
+        w.commit().map_err(|e| format!("commit: {e:?}"))?;
+        drop(w);
+        let c = content_of_storage(vdir.inner.clone(), idf)?;
+        if c.len() != 1 || !c.contains(&1_000_000) {
+            return Err(format!("index holds {} documents after the new writer's commit, expected exactly the new one", c.len()));
+        }
+        Ok(())
+    }));
+    match rec {
+        Ok(Ok(())) => {}
+        Ok(Err(e)) => viol("C11:new-writer-cannot-continue", format!("after the saturated writer was dropped: {e}")),
+        Err(_) => viol("C11:panic-after-recovery", "the new writer panicked after the saturated writer was dropped".into()),
+    }
+    let mut counts = BTreeMap::new();
+    counts.insert(if saturated { "saturation-probe:blocked-add-returned-err" } else { "saturation-probe:err-before-saturation" }.to_string(), 1u64);
+    let res = json!({
+        "op_threads": [], "n_ops": 0, "n_faulted": injected, "faulted": [], "calls": [{"call": "add_document", "tok": "a", "res": format!("first Err at add #{first_err:?} of capacity {cap}"), "phases": ["wk"]}],
+        "violations": violations, "counts": counts, "any_err": first_err.is_some(), "gave_up": false, "phases": ["wk"],
+    });
+    std::fs::write(&out_path, res.to_string()).expect("write child result");
+}
+
 fn child_main(ctx: &mut Ctx, case: &Value) {
+    if case["probe"].as_str() == Some("saturate") {
+        saturate_probe(ctx, case);
+        return;
+    }
     let out_path = PathBuf::from(case["out"].as_str().expect("out"));
     let wl = Workload::from_json(&case["workload"]).expect("workload");
     let fault: Option<(u64, bool)> = case["k"].as_u64().map(|k| (k, case["perm"].as_bool().unwrap_or(false)));
@@ -973,7 +1158,7 @@ fn child_main(ctx: &mut Ctx, case: &Value) {
     let mut ch = Child {
         wl: wl.clone(), policy_b, vdir: vdir.clone(), ram, index, idf, body, writer: None, writer_gen: 0, reader: None,
         searcher_content: None, next_doc: 0, last_ok: BTreeSet::new(), attempts: vec![], pending: vec![], acked_since_err: vec![],
-        writer_errored: false, rollback_failed: false, calls: vec![], violations: vec![], counts: BTreeMap::new(), gave_up: false,
+        writer_errored: false, rollback_failed: false, registers_ahead: false, gen_stamped: false, calls: vec![], violations: vec![], counts: BTreeMap::new(), gave_up: false,
     };
     // arm the fault: operation numbering starts here
     vdir.with_state(|s| {
@@ -994,9 +1179,24 @@ fn child_main(ctx: &mut Ctx, case: &Value) {
     let n_ops = vdir.with_state(|s| s.faultable_seen);
     // the faults are over
     vdir.with_state(|s| s.fail_at = None);
-    let log = vdir.log();
     ch.drop_writer(false);
     ch.reader = None;
+    if wl.default_merge_policy {
+        // Dropping a writer does not wait for its merge threads; an `end_merge` task that had
+        // already started keeps running on the updater thread (it may still replace meta.json and
+        // garbage-collect). `Index::validate_checksum` reads meta.json and then opens the files
+        // without the meta lock, so the final inspection must not race with those threads: wait
+        // until the storage has been quiet for a while.
+        let t0 = Instant::now();
+        let mut last = vdir.log_len();
+        let mut quiet = 0;
+        while quiet < 4 && t0.elapsed() < Duration::from_secs(10) {
+            std::thread::sleep(Duration::from_millis(50));
+            let now = vdir.log_len();
+            if now == last { quiet += 1 } else { quiet = 0; last = now }
+        }
+    }
+    let log = vdir.log();
     ch.clean_stale_locks("at the end of the script");
     ch.classify(&log);
     ch.oracle_reported();
@@ -1177,6 +1377,13 @@ fn absorb(ctx: &mut Ctx, case: &Value, outcome: ChildOutcome) -> Option<u64> {
             ctx.report.count("runs:child-could-not-be-started");
             None
         }
+        ChildOutcome::Timeout if case["probe"].as_str() == Some("saturate") => {
+            ctx.report.case(&canon, true);
+            ctx.report.count("saturation-probe:producer-stayed-blocked");
+            ctx.report.violation("oracle", "C11:add-blocks-forever-after-worker-death",
+                format!("the only indexing worker died of an injected I/O error while the document pipeline was full and the producer was blocked inside add_document: the call never returned (child killed after {} s) — the death of the worker did not disconnect the pipeline", case["timeout_s"]), case.clone());
+            None
+        }
         ChildOutcome::Timeout if case["hang_probe"].as_bool() == Some(true) => {
             ctx.report.case(&canon, true);
             ctx.report.count("hang-probe:blocked");
@@ -1251,7 +1458,7 @@ pub fn run(ctx: &mut Ctx) {
         "oracle (2): the last successful commit (or a later complete attempt) is readable and searchable after every step and after re-opening; validate_checksum clean; after a commit that returned Err the storage denotes the last successful commit — or exactly the attempted one, only when the failed operation was the directory sync right after that commit's meta.json rename (finding C11:commit-err-after-meta-rename-visible)".into(),
         "oracle (3): the fault is reported by the call whose phase it hit or by the next commit (worker), or confined to a merge, or an ignored GC failure (file stays managed), or fails one reload".into(),
         "oracle (4): after rollback / drop of the failed writer a new writer opens, adds and commits".into(),
-        "oracle (5): no panic escapes an API call; the child process neither aborts nor exceeds the wall-clock limit".into(),
+        "oracle (5): no panic escapes an API call; the child process neither aborts nor exceeds the wall-clock limit; with the pipeline saturated (worker parked in the failing operation, producer blocked in add_document) the worker's death makes the blocked add_document return Err".into(),
     ];
     let workloads = if ctx.thorough() { let mut r = ctx.rng.fork(); thorough_workloads(&mut r) } else { quick_workloads() };
     let threads = std::thread::available_parallelism().map(|n| n.get()).unwrap_or(4).min(16);
@@ -1285,6 +1492,10 @@ pub fn run(ctx: &mut Ctx) {
                 cases.push(json!({"workload": w.to_json(), "k": k, "perm": false, "policy": "B"}));
             }
         }
+    }
+    // saturated pipeline: worker death must wake the blocked producer (quick: one component, thorough: three)
+    for v in 0..(if ctx.thorough() { 3 } else { 1 }) {
+        cases.push(json!({"workload": {"name": format!("saturate-{v}")}, "probe": "saturate", "variant": v, "k": 0, "perm": false, "policy": "-", "timeout_s": 45}));
     }
     // thorough tier: the blocking add (runtime clause "does not hang") witnessed on the real code
     if ctx.thorough() {
